@@ -381,10 +381,11 @@ def client_ack(ctx, fam, rid_ack, rid_pack=None):
     f = m.method(C, '_handle_event')
     construct = C + '._handle_event'
     w = where(f)
-    if f.params[1:] != ['namespace', 'id', 'data']:
+    if len(f.params[1:]) != 3:
         raise AnalysisError(construct + ' signature changed')
+    ns_p, id_p, data_p = f.params[1:]
     for idval in (None, 0, 'pos'):
-        run = run_function(f, ctx.model, oracle=id_oracle('id', idval, True))
+        run = run_function(f, ctx.model, oracle=id_oracle(id_p, idval, True))
         for p in run.paths:
             if not p.normal:
                 continue
@@ -404,8 +405,8 @@ def client_ack(ctx, fam, rid_ack, rid_pack=None):
                       key='one-dispatch', where=w, rid=rid_ack)
             for e, pk in acks:
                 good = pk['type'] == 'ACK' and \
-                    U(pk.get('namespace')) == "namespace or '/'" and \
-                    txt(pk.get('id')) == 'id'
+                    U(pk.get('namespace')) == "%s or '/'" % ns_p and \
+                    txt(pk.get('id')) == id_p
                 ctx.check(good, construct, '[%s] ACK bears the event\'s '
                           'namespace and id' % row, key='ack-shape',
                           reason='answer is %s namespace=%s id=%s' % (
@@ -439,7 +440,15 @@ def callback_typestate(ctx, cname, fname, keys, rid):
             return '*'
         return None
     run = run_function(f, m, declared_raises=True, raiser=cb_raiser)
+    # the table keys are the first two parameters (positionally: the
+    # callers are checked for the binding); literal spellings name the
+    # default parameter names and are mapped onto the actual ones
+    ps = f.params[1:]
     k1, k2 = keys
+    if len(ps) >= 2:
+        k1 = k1.replace('namespace', ps[0]) if 'namespace' in k1 else (
+            ps[0] if k1 == 'sid' else k1)
+        k2 = ps[1] if k2 == 'id' else k2
     entry = 'self.callbacks[%s][%s]' % (k1, k2)
     n_invoke = n_fail = 0
     for p in run.paths:
